@@ -1062,7 +1062,6 @@ package leader
 //@   on load kvElection.isLeader as l set sawLeader = l.value
 //@   on call time.AfterFunc as a assert C11.grace_value: a.d == Grace(d.election.cfg)
 //@   on call time.AfterFunc assert C11.only_if_leader: sawLeader
-//@   on call time.AfterFunc assert C11.rearm: timerAtLock != nil ==> calls(Timer.Stop) == 1
 //@   on call handleGracePeriodExpired assert C11.expiry_runs_in_timer: inspawn()
 //@   ghost genStored Int = -1
 //@   on store disconnectHandler.generation as s set genStored = s.value
